@@ -141,7 +141,7 @@ class LoggedLayer(_BaseLayer):
                 time.sleep(0.03)
                 os.kill(os.getpid(), signal.SIGINT)
             if o.hang or o.interrupt:
-                killed = proc.killed.wait(layer.short_wait)
+                killed = proc.killed.wait(5.0 if o.hang else layer.short_wait)
                 proc.returncode = -9
                 with layer.lock:
                     if not rec.get('stop_logged'):
